@@ -125,9 +125,13 @@ pub struct World {
     pub external_calls: bool,
     /// bufs (va,len) of the add/pop call in progress, to tell tables from caller buffers
     pub cur_bufs: Vec<(usize, usize)>,
+    /// output buffers of the pop in progress (driver-owned queues)
+    pub cur_outs: Vec<(usize, usize)>,
     pub bad: usize,
     pub dma_leaked_host: Vec<(*mut u8, usize)>,
     pub mmio_map: Vec<(u64, usize, usize)>, // (pa, size, window id) for mmio_phys_to_virt
+    /// queue-level events are not recorded (quiescent-to-quiescent fast-forward)
+    pub muted: bool,
 }
 
 impl World {
@@ -145,13 +149,22 @@ impl World {
             cur_q: None,
             external_calls: false,
             cur_bufs: Vec::new(),
+            cur_outs: Vec::new(),
             bad: 0,
             dma_leaked_host: Vec::new(),
             mmio_map: Vec::new(),
+            muted: false,
         }
     }
 
     pub fn qev(&mut self, q: u16, v: Value) {
+        if self.muted {
+            // inside an unlogged (skipped) segment only anomalies are kept
+            let e = v["e"].as_str().unwrap_or("");
+            if !matches!(e, "DevBadAddress" | "UnhookedStore" | "Panic" | "Stuck") {
+                return;
+            }
+        }
         self.qtrace.push((q, v.to_string()));
     }
     pub fn dev(&mut self, v: Value) {
@@ -387,6 +400,12 @@ impl World {
         let Some(rec) = self.queues.get(&q) else { return 0 };
         let pa = rec.avail_pa + 4 + 2 * rec.n as u64;
         self.rd16(q, pa)
+    }
+    /// (used.flags, avail_event) as currently in memory
+    pub fn dev_used_fields(&mut self, q: u16) -> (u16, u16) {
+        let Some(rec) = self.queues.get(&q) else { return (0, 0) };
+        let (a, b) = (rec.used_pa, rec.used_pa + 4 + 8 * rec.n as u64);
+        (self.rd16(q, a), self.rd16(q, b))
     }
     pub fn dev_pending(&mut self, q: u16) -> u16 {
         let idx = self.dev_avail_idx(q);
